@@ -314,7 +314,8 @@ pub fn random_case(rng: &mut Rng, o: &GenOpts) -> RCase {
         }
     } else {
         sw = rng.size(o.max_side);
-        sh = rng.size(o.max_side);
+        // a square source now and then
+        sh = if rng.chance(1, 12) { sw } else { rng.size(o.max_side) };
         // same size on one axis now and then (single pass)
         dw = if rng.chance(1, 8) { sw } else { rng.size(o.max_side) };
         dh = if rng.chance(1, 8) { sh } else { rng.size(o.max_side) };
@@ -330,7 +331,11 @@ pub fn random_case(rng: &mut Rng, o: &GenOpts) -> RCase {
         // pure sub-pixel shift: the crop box has an integer size equal to the destination and a fractional
         // (or half-integer, or one-axis-integer) origin
         let w = rng.range(1, (sw - 1) as u64) as f64;
-        let h = rng.range(1, (sh - 1) as u64) as f64;
+        let mut h = rng.range(1, (sh - 1) as u64) as f64;
+        if rng.chance(1, 4) && w <= (sh - 1) as f64 {
+            // square box (and destination): both passes see "the same" sizes, only the origins differ
+            h = w;
+        }
         let frac = |rng: &mut Rng, room: f64| -> f64 {
             match rng.below(4) {
                 0 => (room * rng.unit()).floor(),
